@@ -18,6 +18,13 @@ order, and the model's observation is `equal|ok|<listing of the model's exec.d>`
 files with the link count `XFs.nlink` computes). Both APIs reach the same function with the same `exec.d`, so `api`
 does not enter the model. The spec oracle is `Spec.Det.execdVerdict`.
 
+Kind `sbom`: `a` = route (`bp` | `tbp`: the build phase with a build result that registers 0-8 build and 0-8 launch
+SBOMs, formats repeated; `ls` | `lt`: a layer's SBOMs written from a list with repeated formats through the struct /
+trait API), `b` = the registrations in order (`;`). The model writes the Vecs front to back (`Det.writeBuildResultSboms`,
+`Det.replaceLayerSbomFiles`) and its observation is `equal|ok|<SBOM files: name hex=bytes hex, sorted>`; the spec
+oracle is `Spec.Det.sbomVerdict` on the registrations as (file name, bytes): runs equal and every file = the SBOM
+registered last for it.
+
 The model's prediction: `equal` (Props/C20: on the success paths the outputs do not depend on the iteration order),
 except for the two error-path classes where the **model itself** is order-sensitive — an exec.d write whose copy loop
 (`Det.copyExecd`) leaves different directories for the given and the reversed order (a missing source among several
@@ -154,9 +161,111 @@ def handleExecd (a b obs : String) : String × String :=
     | _, _ => ("bad-op", "bad-op")
   | [] => ("bad-op", "bad-op")
 
+/-! ### kind `sbom` -/
+
+/-- `cnb_sbom_path`: `<base>.sbom.<suffix>`, suffix number `f` of `Gen.sbomSuffixes` -/
+def sbomFileName (k : Det.SbomKey) : Option Bytes :=
+  (Gen.sbomSuffixes.map (·.2))[k.2]?.map (fun suf => strBytes (k.1 ++ ".sbom." ++ suf))
+
+def natOfDigits (s : String) : Option Nat := if s.isEmpty || !s.all Char.isDigit then none else s.toNat?
+
+/-- what one registration does: nothing the SBOM files depend on (`none`), or an SBOM for (target, format) -/
+abbrev SbomItem := Option (String × Nat × Bytes)
+
+/-- an item of the data-driven buildpack (`c20.rs` `bp_build`): `b.<fmt>.<hex>` build SBOM, `h.<fmt>.<hex>` launch SBOM;
+launch.toml / store items (`p` `l` `s` `m`) and `i` do not touch SBOM files -/
+def parseBpItem (it : String) : Option SbomItem :=
+  match it.splitOn "." with
+  | [t, f, h] =>
+    if t == "b" || t == "h" then
+      match natOfDigits f, hexDecode h with
+      | some f, some b => if f < 3 then some (some (if t == "b" then "build" else "launch", f, b)) else none
+      | _, _ => none
+    else if ["i", "p", "l", "s", "m"].contains t then some none else none
+  | t :: _ => if ["i", "p", "l", "s", "m"].contains t then some none else none
+  | [] => none
+
+def tbpFmt (s : String) : Option Nat := match s with | "cdx" => some 0 | "spdx" => some 1 | "syft" => some 2 | _ => none
+
+/-- an item of the C05 test buildpack (`tbp.rs`), `k` = its position in the item list: SBOM payloads are
+`{"tbp-sbom":k}` / no bytes (`e`) / FF 00 followed by the decimal digits of `k` (`x`) -/
+def parseTbpItem (k : Nat) (it : String) : Option SbomItem :=
+  if ["launch", "elaunch", "xlaunch", "store", "estore", "xstore"].contains it then some none
+  else
+    match it.splitOn "." with
+    | [head, f] =>
+      let payload : Option (String × Bytes) :=
+        match head with
+        | "b" => some ("build", strBytes ("{\"tbp-sbom\":" ++ toString k ++ "}"))
+        | "be" => some ("build", [])
+        | "bx" => some ("build", [255, 0] ++ strBytes (toString k))
+        | "l" => some ("launch", strBytes ("{\"tbp-sbom\":" ++ toString k ++ "}"))
+        | "le" => some ("launch", [])
+        | "lx" => some ("launch", [255, 0] ++ strBytes (toString k))
+        | _ => none
+      match payload, tbpFmt f with
+      | some (t, b), some f => some (some (t, f, b))
+      | _, _ => none
+    | _ => none
+
+def parseTbpItems : Nat → List String → Option (List SbomItem)
+  | _, [] => some []
+  | k, it :: rest => match parseTbpItem k it, parseTbpItems (k + 1) rest with
+    | some x, some xs => some (x :: xs)
+    | _, _ => none
+
+/-- an SBOM of a layer: `<fmt>=<hex>` -/
+def parseLayerSbom (s : String) : Option (Nat × Bytes) :=
+  match s.splitOn "=" with
+  | [f, h] => match natOfDigits f, hexDecode h with
+    | some f, some b => if f < 3 then some (f, b) else none
+    | _, _ => none
+  | _ => none
+
+/-- the layer scenarios write these three SBOMs first (`c20.rs` `SBOM_OLD`), then the scenario's list -/
+def layerOldSboms : List (Nat × Bytes) := [(0, strBytes "old-cdx"), (1, strBytes "old-spdx"), (2, strBytes "old-syft")]
+def sbomLayerName : String := "a"
+
+def showSbomFiles (fs : Det.SbomFiles) : Option String :=
+  (allSome (fs.map (fun kv => (sbomFileName kv.1).map (fun n => (n, kv.2))))).map (fun named =>
+    joinWith "," ((sortBy (fun x y => bytesLt x.1 y.1) named).map (fun e => hexEncode e.1 ++ "=" ++ hexEncode e.2)))
+
+/-- registrations in order as (file name, bytes) for the spec oracle -/
+def namedRegs (regs : List (String × Nat × Bytes)) : Option (List (Bytes × Bytes)) :=
+  allSome (regs.map (fun r => (sbomFileName (r.1, r.2.1)).map (fun n => (n, r.2.2))))
+
+def sbomOutcome (files : Det.SbomFiles) (regs : List (String × Nat × Bytes)) (obs : String) : String × String :=
+  match showSbomFiles files, namedRegs regs with
+  | some listing, some named => ("equal|ok|" ++ listing, Spec.Det.sbomVerdict named obs)
+  | _, _ => ("bad-op", "bad-op")
+
+/-- Kind `sbom`: `a` = route, `b` = registrations (`;`).
+`bp`: the harness's data-driven buildpack, `tbp`: the C05 test buildpack — the real build phase (`libcnb_runtime_build`)
+on a fresh layers directory, model `Det.writeBuildResultSboms`. `ls`: struct API `LayerRef::write_sboms`, `lt`: trait API
+`update` returning the SBOMs (`Sboms::Replace`) — on a cached layer that already has an SBOM of every format, model
+`Det.replaceLayerSbomFiles`. -/
+def handleSbom (a b obs : String) : String × String :=
+  if obs == "bad-fields" then ("bad-op", "bad-op")
+  else if a == "bp" || a == "tbp" then
+    let items := splitList b ";"
+    match (if a == "bp" then allSome (items.map parseBpItem) else parseTbpItems 0 items) with
+    | some its =>
+      let regs := its.filterMap id
+      let of (t : String) := (regs.filter (·.1 == t)).map (·.2)
+      sbomOutcome (Det.writeBuildResultSboms [] (of "build") (of "launch")) regs obs
+    | none => ("bad-op", "bad-op")
+  else if a == "ls" || a == "lt" then
+    match allSome ((splitList b ";").map parseLayerSbom) with
+    | some sb =>
+      let before := Det.replaceLayerSbomFiles sbomLayerName [] layerOldSboms
+      sbomOutcome (Det.replaceLayerSbomFiles sbomLayerName before sb) (sb.map (fun x => (sbomLayerName, x.1, x.2))) obs
+    | none => ("bad-op", "bad-op")
+  else ("bad-op", "bad-op")
+
 def handle (fields : List String) (obs : String) : String × String :=
   match fields with
   | ["execd", a, b] => handleExecd a b obs
+  | ["sbom", a, b] => handleSbom a b obs
   | [kind, a, b] =>
     if knownKinds.contains kind && !a.isEmpty && !b.isEmpty && obs != "bad-fields" then
       let sensitive := (kind == "layers" || kind == "bp") && (splitList b ";").any opOrderSensitive
